@@ -78,6 +78,29 @@ pub fn c02_q_and_array_pair() {
     coherent(&p, &POOL, 3);
 }
 
+/// both sides claim uniqueness on their own; the concatenation may still repeat a key
+#[kani::proof]
+#[kani::unwind(6)]
+pub fn c02_q_and_pair_pair() {
+    let p = And::new(pair(1), pair(2));
+    coherent(&p, &POOL, 2);
+    let q = And::new(And::new(pair(1), Empty), And::new(pair(2), pair(3)));
+    coherent(&q, &POOL, 3);
+}
+
+/// every intermediate level of a nest is itself a collection obtainable through the API
+#[kani::proof]
+#[kani::unwind(6)]
+pub fn c02_q_and_levels() {
+    let present: bool = kani::any();
+    let inner_l = And::new(pair(1), if present { Some(pair(2)) } else { None });
+    coherent(&inner_l, &POOL, 2);
+    let inner_r = And::new(Empty, pair(3));
+    coherent(&inner_r, &POOL, 1);
+    let e: &dyn ErasedProps = &inner_l;
+    coherent(&And::new(e, &inner_r), &POOL, 3);
+}
+
 #[kani::proof]
 #[kani::unwind(6)]
 pub fn c02_q_and_option_erased() {
@@ -119,7 +142,6 @@ pub fn c02_q_extent_view() {
         else { v.by_ref().cast::<i32>().unwrap_or(-1) }
     }
     coherent_by(&x, &KEYS, 2, id);
-    coherent_by(&And::new(("a", 1), &x), &["ts", "ts_start", "a", "b"], 3, id);
 }
 
 #[kani::proof]
